@@ -1,0 +1,151 @@
+//! Level-structure facade (properties C01 / C06): a read-only dump of where every version of a
+//! running store sits — the active memtable, the immutable memtables in the order `Snapshot::get`
+//! searches them, and per level every table with its key range — together with the answer of
+//! `Snapshot::get` for every stored key at every registered snapshot horizon and at the current
+//! visibility horizon. Plain data out.
+
+use std::collections::BTreeSet;
+use std::sync::Arc;
+
+use crate::memtable::MemTable;
+use crate::snapshot::Snapshot;
+use crate::{LSMIterator, Tree};
+
+/// (user key, sequence number, kind byte, timestamp)
+pub type Version = (Vec<u8>, u64, u8, u64);
+
+pub struct TableDump {
+	pub id: u64,
+	pub smallest: Vec<u8>,
+	pub largest: Vec<u8>,
+	/// in table order
+	pub versions: Vec<Version>,
+}
+
+pub struct LevelsDump {
+	pub active: Vec<Version>,
+	/// (pre-assigned table id, versions), in the order `Snapshot::get` walks them
+	pub immutables: Vec<(u64, Vec<Version>)>,
+	/// per level, in the order of `Level::tables`
+	pub levels: Vec<Vec<TableDump>>,
+	pub level_count: u8,
+	pub versioning: bool,
+	pub retention_ns: u64,
+	pub now: u64,
+	/// registered snapshot horizons, ascending
+	pub snapshots: Vec<u64>,
+	pub visible_seq: u64,
+	/// (user key, horizon, sequence number of the value `Snapshot::get` returns or None)
+	pub reads: Vec<(Vec<u8>, u64, Option<u64>)>,
+}
+
+fn memtable_versions(m: &MemTable) -> Result<Vec<Version>, String> {
+	let mut out = Vec::new();
+	let mut it = m.iter();
+	let mut ok = it.seek_first().map_err(|e| e.to_string())?;
+	while ok {
+		let k = it.key();
+		out.push((k.user_key().to_vec(), k.seq_num(), k.trailer() as u8, k.timestamp()));
+		ok = it.next().map_err(|e| e.to_string())?;
+	}
+	Ok(out)
+}
+
+/// Where every version sits, and what `Snapshot::get` answers.
+pub fn dump(tree: &Tree) -> Result<LevelsDump, String> {
+	let inner = &tree.core.inner;
+	let active = {
+		let g = inner.active_memtable.read().map_err(|e| e.to_string())?;
+		memtable_versions(&g)?
+	};
+	let mut immutables = Vec::new();
+	{
+		let g = inner.immutable_memtables.read().map_err(|e| e.to_string())?;
+		// the order of Snapshot::get
+		for entry in g.iter().rev() {
+			immutables.push((entry.table_id, memtable_versions(&entry.memtable)?));
+		}
+	}
+	let mut levels = Vec::new();
+	{
+		let m = inner.level_manifest.read().map_err(|e| e.to_string())?;
+		for l in m.levels.get_levels().iter() {
+			let mut tables = Vec::new();
+			for t in l.tables.iter() {
+				let mut versions = Vec::new();
+				let mut it = t.iter(None).map_err(|e| e.to_string())?;
+				let mut ok = it.seek_first().map_err(|e| e.to_string())?;
+				while ok {
+					let k = it.key();
+					versions.push((
+						k.user_key().to_vec(),
+						k.seq_num(),
+						k.trailer() as u8,
+						k.timestamp(),
+					));
+					ok = it.next().map_err(|e| e.to_string())?;
+				}
+				tables.push(TableDump {
+					id: t.id,
+					smallest: t
+						.meta
+						.smallest_point
+						.as_ref()
+						.map(|k| k.user_key.clone())
+						.unwrap_or_default(),
+					largest: t
+						.meta
+						.largest_point
+						.as_ref()
+						.map(|k| k.user_key.clone())
+						.unwrap_or_default(),
+					versions,
+				});
+			}
+			levels.push(tables);
+		}
+	}
+	let snapshots = inner.snapshot_tracker.get_all_snapshots();
+	let visible_seq = tree.core.seq_num();
+	let mut keys: BTreeSet<Vec<u8>> = BTreeSet::new();
+	for v in active.iter() {
+		keys.insert(v.0.clone());
+	}
+	for (_, m) in immutables.iter() {
+		for v in m.iter() {
+			keys.insert(v.0.clone());
+		}
+	}
+	for l in levels.iter() {
+		for t in l.iter() {
+			for v in t.versions.iter() {
+				keys.insert(v.0.clone());
+			}
+		}
+	}
+	let mut horizons: Vec<u64> = snapshots.clone();
+	if !horizons.contains(&visible_seq) {
+		horizons.push(visible_seq);
+	}
+	let mut reads = Vec::new();
+	for h in horizons.iter() {
+		// registered for the time of the reads only (dropped at the end of the iteration)
+		let snap = Snapshot::new(Arc::clone(&tree.core), *h);
+		for k in keys.iter() {
+			let r = snap.get(k).map_err(|e| e.to_string())?;
+			reads.push((k.clone(), *h, r.map(|(_, seq)| seq)));
+		}
+	}
+	Ok(LevelsDump {
+		active,
+		immutables,
+		levels,
+		level_count: inner.opts.level_count,
+		versioning: inner.opts.enable_versioning,
+		retention_ns: inner.opts.versioned_history_retention_ns,
+		now: inner.opts.clock.now(),
+		snapshots,
+		visible_seq,
+		reads,
+	})
+}
